@@ -36,10 +36,11 @@ func idClasses(base int) []idClass {
 }
 
 type rawCall struct {
-	RawID  string
-	Class  string
-	Nonce  string
-	Digest string
+	RawID   string
+	Class   string
+	Nonce   string
+	Digest  string
+	WantErr bool
 }
 
 func echoAnswerOf(frame string) (id string, ans *kit.EchoAnswer, isErr bool, err error) {
@@ -130,6 +131,10 @@ func rawScenario(r *vh.Run, kind kit.Kind, regime string, n int, round int) {
 			extra["gate"] = gate
 		}
 		body := kit.EchoCallBody(calls[i].RawID, calls[i].Nonce, payloads[i], extra)
+		if i%5 == 4 {
+			calls[i].WantErr = true
+			body = []byte(fmt.Sprintf(`{"jsonrpc":"2.0","id":%s,"method":"tools/call","params":{"name":"fail","arguments":{"nonce":%q}}}`, calls[i].RawID, calls[i].Nonce))
+		}
 		wg.Add(1)
 		go func(i int, body []byte) {
 			defer wg.Done()
@@ -143,7 +148,13 @@ func rawScenario(r *vh.Run, kind kit.Kind, regime string, n int, round int) {
 		}(i, body)
 	}
 	if regime == "barrier" {
-		got := kit.G.AwaitWaiters(gate, len(calls), 15*time.Second)
+		nGated := 0
+		for i := range calls {
+			if i%5 != 4 {
+				nGated++
+			}
+		}
+		got := kit.G.AwaitWaiters(gate, nGated, 15*time.Second)
 		r.Max("overlap_"+string(kind), int64(got))
 		kit.G.Open(gate)
 	}
@@ -167,6 +178,18 @@ func rawScenario(r *vh.Run, kind kit.Kind, regime string, n int, round int) {
 		}
 		if len(answers) != 1 {
 			r.Violation(sigBase+"|answer-count", fmt.Sprintf("%s: request id %s got %d answers", kind, o.call.RawID, len(answers)), wit)
+			continue
+		}
+		if o.call.WantErr {
+			id, _, isErr, _ := echoAnswerOf(answers[0])
+			switch {
+			case !isErr || !strings.Contains(answers[0], "boom:"+o.call.Nonce):
+				r.Violation(sigBase+"|foreign-or-garbled-error", fmt.Sprintf("%s: request id %s to the failing tool did not get its own error answer", kind, o.call.RawID), wit)
+			case id != kit.CanonID(json.RawMessage(o.call.RawID)):
+				r.Violation(sigBase+"|id-changed", fmt.Sprintf("%s: request id %s answered with id %s", kind, o.call.RawID, id), wit)
+			default:
+				r.Distinct(fmt.Sprintf("raw|%s|%s|%s|error-answer", kind, regime, o.call.Class))
+			}
 			continue
 		}
 		id, ans, isErr, err := echoAnswerOf(answers[0])
@@ -225,6 +248,9 @@ func rawScenario(r *vh.Run, kind kit.Kind, regime string, n int, round int) {
 		}
 	}
 	for _, cl := range calls {
+		if cl.WantErr {
+			continue
+		}
 		if counts[cl.Nonce] != 1 {
 			r.Violation(fmt.Sprintf("C01|raw|%s|handler-count", kind), fmt.Sprintf("%s: handler ran %d times for nonce %s", kind, counts[cl.Nonce], cl.Nonce), nil)
 		}
@@ -292,8 +318,11 @@ func libScenario(r *vh.Run, kind kit.Kind, regime string, K, M int, startID int6
 		ans           *kit.EchoAnswer
 		err           error
 		outcomes      int
+		wantErr       bool // the call goes to the failing tool: its own error message must come back
+		panicked      string
 	}
 	results := make([]res, K*M)
+	gated := 0
 	rng := r.Rand(fmt.Sprintf("lib-%s-%s-%d", kind, regime, round))
 	var wg sync.WaitGroup
 	for k := 0; k < K; k++ {
@@ -303,6 +332,14 @@ func libScenario(r *vh.Run, kind kit.Kind, regime string, K, M int, startID int6
 			nonce := fmt.Sprintf("lib-%s-%s-%d-%d-%d", kind, regime, round, k, m)
 			results[i].nonce, results[i].digest = nonce, kit.Digest(payload)
 			args := map[string]interface{}{"nonce": nonce, "payload": payload}
+			tool := "echo"
+			if m%4 == 3 {
+				// every fourth call is answered with a JSON-RPC error that names the call
+				tool = "fail"
+				results[i].wantErr = true
+			} else {
+				gated++
+			}
 			switch regime {
 			case "delay":
 				args["delay_us"] = rng.Intn(3000)
@@ -314,10 +351,15 @@ func libScenario(r *vh.Run, kind kit.Kind, regime string, K, M int, startID int6
 				}
 			}
 			wg.Add(1)
-			go func(i int, c *kit.LibClient, args map[string]interface{}) {
+			go func(i int, c *kit.LibClient, tool string, args map[string]interface{}) {
 				defer wg.Done()
+				defer func() {
+					if p := recover(); p != nil {
+						results[i].panicked = fmt.Sprint(p)
+					}
+				}()
 				req := &mcp.CallToolRequest{}
-				req.Params.Name = "echo"
+				req.Params.Name = tool
 				req.Params.Arguments = args
 				cctx, ccancel := context.WithTimeout(ctx, 20*time.Second)
 				out, err := c.CallTool(cctx, req)
@@ -335,11 +377,11 @@ func libScenario(r *vh.Run, kind kit.Kind, regime string, K, M int, startID int6
 						}
 					}
 				}
-			}(i, clients[k], args)
+			}(i, clients[k], tool, args)
 		}
 	}
 	if regime == "barrier" && kind != kit.Stdio {
-		got := kit.G.AwaitWaiters(gate, K*M, 15*time.Second)
+		got := kit.G.AwaitWaiters(gate, gated, 15*time.Second)
 		r.Max("overlap_lib_"+string(kind), int64(got))
 		kit.G.Open(gate)
 	}
@@ -353,6 +395,21 @@ func libScenario(r *vh.Run, kind kit.Kind, regime string, K, M int, startID int6
 		r.Eval(1)
 		sig := fmt.Sprintf("C01|lib|%s|ids=%s", kind, idc)
 		wit := map[string]interface{}{"kind": kind, "regime": regime, "nonce": x.nonce, "start_id": startID, "err": fmt.Sprint(x.err), "answer": x.ans}
+		if x.panicked != "" {
+			r.Violation(sig+"|panic-in-caller", fmt.Sprintf("%s library client: CallTool panicked in the caller's goroutine: %s", kind, x.panicked), wit)
+			continue
+		}
+		if x.wantErr {
+			switch {
+			case x.err == nil:
+				r.Violation(sig+"|error-answer-lost", fmt.Sprintf("%s library client: call %s to the failing tool returned a result instead of its error", kind, x.nonce), wit)
+			case !strings.Contains(x.err.Error(), "boom:"+x.nonce):
+				r.Violation(sig+"|foreign-or-garbled-error", fmt.Sprintf("%s library client: call %s did not receive its own error answer (boom:%s) but: %v", kind, x.nonce, x.nonce, x.err), wit)
+			default:
+				r.Distinct(fmt.Sprintf("lib|%s|%s|%s|error-answer", kind, regime, idc))
+			}
+			continue
+		}
 		if x.err != nil {
 			r.Violation(sig+"|call-failed", fmt.Sprintf("%s library client: call %s failed while the connection was up: %v", kind, x.nonce, x.err), wit)
 			continue
@@ -391,6 +448,9 @@ func libScenario(r *vh.Run, kind kit.Kind, regime string, K, M int, startID int6
 		}
 	}
 	for _, x := range results {
+		if x.wantErr {
+			continue // the failing tool does not record invocations
+		}
 		if x.err == nil && counts[x.nonce] != 1 {
 			r.Violation(fmt.Sprintf("C01|lib|%s|handler-count", kind), fmt.Sprintf("%s: handler ran %d times for nonce %s", kind, counts[x.nonce], x.nonce), nil)
 		}
